@@ -16,7 +16,7 @@ json.dump(d,open(d.pop('_out'),'w'),indent=1)
 print(d)
 PY
 }
-demo="$d/demo.sh"; [ -f "$demo" ] || demo="$d/mydemo.sh"
+demo="$d/mydemo.sh"; [ -f "$demo" ] || demo="$d/demo.sh"
 [ -f "$demo" ] || { res _out "$d/VERIFY.json" status no-demo; exit 1; }
 if ! git apply --check "$d/patch.diff" 2>/dev/null; then res _out "$d/VERIFY.json" status patch-does-not-apply; exit 1; fi
 git apply "$d/patch.diff"
